@@ -345,11 +345,12 @@ for _form in ('where', 'target', 'from'):
 
 @cond('C08.in.top-n', quick=240, thorough=600,
       bounds='outer table t of 1 row (a symbolic int), inner table u of exactly 3 rows (c, d symbolic ints, d pairwise distinct); '
-             'a [NOT] IN (SELECT c FROM #u ORDER BY d [DESC] LIMIT n), n in 0..3: membership in the top-n rows (the inner ORDER BY '
-             'decides which rows the LIMIT keeps)',
+             'a [NOT] IN (SELECT c FROM #u ORDER BY d [DESC] LIMIT n) and (SELECT DISTINCT c FROM #u ORDER BY c [DESC] LIMIT n), n in 0..3: '
+             'membership in the top-n rows (the inner ORDER BY decides which rows the LIMIT keeps, DISTINCT comes before LIMIT)',
       symbolic='all cells, direction, negation', enumerated='n', group='C08.in',
-      params={'a': int, 'c0': int, 'c1': int, 'c2': int, 'd0': int, 'd1': int, 'd2': int, 'n': int, 'desc': bool, 'neg': bool})
-def in_top_n(a, c0, c1, c2, d0, d1, d2, n, desc, neg):
+      params={'a': int, 'c0': int, 'c1': int, 'c2': int, 'd0': int, 'd1': int, 'd2': int, 'n': int, 'desc': bool, 'neg': bool,
+              'dist': bool})
+def in_top_n(a, c0, c1, c2, d0, d1, d2, n, desc, neg, dist):
     n = enum_int(n, 0, 3)
     assume(d0 != d1 and d1 != d2 and d0 != d2)
     tcols = [('a', int)]
@@ -357,14 +358,45 @@ def in_top_n(a, c0, c1, c2, d0, d1, d2, n, desc, neg):
     conn = connect(t=HTable('t', tcols, trows), u=HTable('u', UCOLS, urows))
     sub = sel([target(col('c'))], 'u', order_by=[ast.OrderBy(col('d'), ast.Ordering.DESC if desc else ast.Ordering.ASC)], limit=n)
     stmt = sel([target(col('a'), 'a'), target((ast.NotIn if neg else ast.In)(col('a'), sub), 'r')], 't')
+    if dist:
+        # DISTINCT c ORDER BY c LIMIT n: duplicates must not use up the LIMIT
+        sub = sel([target(col('c'))], 'u', order_by=[ast.OrderBy(col('c'), ast.Ordering.DESC if desc else ast.Ordering.ASC)], limit=n,
+                  distinct=True)
+        stmt = sel([target(col('a'), 'a'), target((ast.NotIn if neg else ast.In)(col('a'), sub), 'r')], 't')
     text = native(print_select, stmt)
     got = conn.execute(parse(text)).fetchall()
     # written out: the n rows of u with the smallest (largest) d
     kept = sorted(urows, key=lambda r: r[1], reverse=bool(desc))[:n]
+    if dist:
+        values = []
+        for r in sorted(urows, key=lambda r: r[0], reverse=bool(desc)):
+            if r[0] not in values:
+                values.append(r[0])
+        kept = [(v, None) for v in values[:n]]
     member = None if not kept else (a in [r[0] for r in kept])
     want = [(a, None if member is None else (member != bool(neg)))]
     if not same_rows(got, want):
         return 'membership-in-the-top-n-rows'
+    return 'ok'
+
+
+@cond('C08.from.rescanned', quick=180, thorough=400,
+      bounds='2..3 rows (a, b symbolic ints; k in {NULL,0,1}); SELECT x, y FROM (SELECT a AS x, b AS y FROM #t) WHERE y IN (SELECT y WHERE '
+             'y > 0): the IN-subquery has no FROM of its own and reads the enclosing subquery table again: both scans see all of its rows',
+      symbolic='a, b cells', enumerated='row count', params={'a0': int, 'a1': int, 'a2': int, 'b0': int, 'b1': int, 'b2': int, 'three': bool},
+      group='C08.from')
+def from_rescanned(a0, a1, a2, b0, b1, b2, three):
+    rows = [(a0, b0, 0), (a1, b1, 1)] + ([(a2, b2, 0)] if three else [])
+    conn = connect(t=HTable('t', COLUMNS, rows))
+    inner = sel([target(col('a'), 'x'), target(col('b'), 'y')], 't')
+    sub = sel([target(col('y'))], where=ast.Greater(col('y'), const(0)))
+    stmt = sel([target(col('x')), target(col('y'))], from_clause=inner, where=ast.In(col('y'), sub))
+    text = native(print_select, stmt)
+    got = conn.execute(parse(text)).fetchall()
+    positive = [r[1] for r in rows if r[1] > 0]
+    want = [(r[0], r[1]) for r in rows if positive and r[1] in positive]
+    if not same_rows(got, want):
+        return 'subquery-table-scanned-twice'
     return 'ok'
 
 
